@@ -46,14 +46,33 @@ static int last_root_ctl = -1;                    // last control call made on t
 // the root (from outside or from inside any call-out) and nothing but loop passes and clock steps happened since
 static std::vector<int> fn_calls;                 // by id: body invocations since the last reset of the root
 static std::vector<std::pair<int,int>> root_fin_log;   // (succ, reason code) of the root's finish notifications since its last reset
-static int restart_state = 0;                     // 0 none, 1 root just reset, 2 root reset and started again, nothing else since
-static int fresh_state = 0;                       // 0 freshly built, untouched; 1 started once by start(), nothing else since; 2 anything else
-static std::string mark_str; static bool has_mark = false;
+static std::vector<int64_t> root_fin_at;          // ms between the start() that began the run and each of those notifications
+static std::vector<int> root_blk_log;             // reason codes of the root's block notifications since its last reset
+static int restart_state = 0;                     // 0 none, 1 root just reset, 2 the current run began with reset() + start() on the root
+static int fresh_state = 0;                       // 0 freshly built, untouched; 1 the current run is the first run of the freshly built tree; 2 anything else
+static std::string mark_str, mark_timed; static bool has_mark = false;
+// round 11: the comparison also covers runs with control calls / emits / timeout changes AFTER the start, when the restarted run is
+// driven by exactly the op script of the marked fresh run (`run_log`: every op line, control call and emit since the start() that
+// began the run) from the same configuration (timeout of every node at that start(); no one-shot callback script pending)
+static std::vector<std::string> run_log, mark_log;
+static std::vector<int64_t> cur_tmo, run_tmo, mark_tmo;      // by id: configured timeout in ms, -1 none
+static int64_t run_t0 = 0; static bool run_scripts = false, mark_scripts = false;
+static int callout_depth = 0;                     // > 0 while a callback script (cb / icb) makes its calls
+static size_t pending_scripts();
+static bool time_only(const std::vector<std::string> &l) {
+    for (auto &x : l) if (x.compare(0, 4, "pass") != 0 && x.compare(0, 4, "adv ") != 0 && x.compare(0, 5, "advr ") != 0) return false;
+    return true;
+}
+static void begin_run() { run_log.clear(); run_tmo = cur_tmo; run_t0 = vt::mono_ms(); run_scripts = pending_scripts() != 0 || callout_depth > 0; }
 static void note_root_ctl(int kind) {
-    fresh_state = (fresh_state == 0 && kind == 0) ? 1 : 2;
-    if (kind == 4) { std::fill(fn_calls.begin(), fn_calls.end(), 0); root_fin_log.clear(); restart_state = 1; }
-    else if (kind == 0 && restart_state == 1) restart_state = 2;
-    else restart_state = 0;
+    if (kind == 4) {
+        std::fill(fn_calls.begin(), fn_calls.end(), 0); root_fin_log.clear(); root_fin_at.clear(); root_blk_log.clear();
+        restart_state = 1; fresh_state = 2; run_log.push_back("c4"); return;
+    }
+    if (kind == 0 && fresh_state == 0) { fresh_state = 1; begin_run(); return; }
+    if (kind == 0 && restart_state == 1) { restart_state = 2; begin_run(); return; }
+    if (restart_state == 1) restart_state = 0;       // reset, then something else than start: not a restarted run
+    run_log.push_back("c" + std::to_string(kind));
 }
 static void count_fn(int id) { if (id >= 0 && (size_t)id < fn_calls.size()) ++fn_calls[(size_t)id]; }
 
@@ -82,6 +101,8 @@ struct Parser {
     std::vector<std::string> toks; size_t pos = 0; int next_id = 0; bool bad = false;
     std::vector<Action*> made;      // every node built so far, by id (for cleanup on error)
     std::vector<DummyAction*> dums;
+    std::vector<int64_t> tmos;      // by id: configured timeout in ms, -1 none
+    void note_tmo(int id, int64_t ms) { if (tmos.size() <= (size_t)id) tmos.resize((size_t)id + 1, -1); tmos[(size_t)id] = ms; }
     std::vector<Action*> orphans;   // built but not (yet) owned by a parent
     std::map<int, std::vector<Action*>> kids;   // children of composite `id`
 
@@ -107,7 +128,7 @@ struct Parser {
     }
     void reg(Action *a, int id, int64_t tmo, bool raw, DummyAction *d = nullptr) {
         made.push_back(a); dums.push_back(d);
-        if (tmo >= 0) a->setTimeout(std::chrono::milliseconds(tmo_ms(id, tmo, raw)));
+        if (tmo >= 0) { a->setTimeout(std::chrono::milliseconds(tmo_ms(id, tmo, raw))); note_tmo(id, tmo_ms(id, tmo, raw)); }
     }
 
     Action *leaf(const std::string &base, int id, int64_t tmo, bool raw) {
@@ -236,7 +257,7 @@ struct Parser {
         a->setFinalCallback([id] { ev("final " + std::to_string(id)); check_final(id); run_iscript(scr_ifinal, id); });
         made[slot] = a;
         kids[id] = ch;
-        if (tmo >= 0) a->setTimeout(std::chrono::milliseconds(tmo_ms(id, tmo, raw)));
+        if (tmo >= 0) { a->setTimeout(std::chrono::milliseconds(tmo_ms(id, tmo, raw))); note_tmo(id, tmo_ms(id, tmo, raw)); }
         return a;
     }
 };
@@ -263,6 +284,13 @@ static std::string summary() {
     for (size_t i = 0; i < fn_calls.size(); ++i) if (i < is_func.size() && is_func[i]) s += std::to_string(i) + ":" + std::to_string(fn_calls[i]) + ",";
     s += " fin=";
     for (auto &f : root_fin_log) s += std::to_string(f.first) + "/" + std::to_string(f.second) + ",";
+    s += " blk=";
+    for (auto b : root_blk_log) s += std::to_string(b) + ",";
+    return s;
+}
+static std::string timed_summary() {      // when the finish notifications of the root were delivered, relative to the start of the run
+    std::string s = "at=";
+    for (auto t : root_fin_at) s += std::to_string(t) + ",";
     return s;
 }
 
@@ -319,7 +347,7 @@ static bool do_call(const Call &c) {
         default: {
             DummyAction *d = dummies[c.n];
             if (!d || d->state() != Action::State::kRunning) return false;     // a leaf completes / blocks only while it runs
-            restart_state = 0; fresh_state = 2;
+            run_log.push_back("e" + std::to_string(c.n) + c.x);
             if (c.x == 'b') d->emitBlock(Action::Reason()); else d->emitFinish(c.x == 's');
             return true;
         }
@@ -342,7 +370,9 @@ static void run_iscript(std::map<int, IScripts> &m, int id) {
     auto it = m.find(id);
     if (it == m.end() || it->second.empty()) return;
     auto sc = std::move(it->second.front()); it->second.pop_front();
+    ++callout_depth;
     for (auto &c : sc.second) ev(std::string("iret ") + (do_icall(sc.first, c) ? "1" : "0"));
+    --callout_depth;
 }
 static bool ended(Action *a) { auto s = a->state(); return s == Action::State::kFinished || s == Action::State::kStoped; }
 static bool underway(Action *a) { auto s = a->state(); return s == Action::State::kRunning || s == Action::State::kPause; }
@@ -382,7 +412,30 @@ static std::deque<std::vector<Call>> scr_final, scr_fin, scr_blk;
 static void run_script(std::deque<std::vector<Call>> &q) {
     if (q.empty()) return;
     std::vector<Call> cs = std::move(q.front()); q.pop_front();
+    ++callout_depth;
     for (auto &c : cs) ev(std::string("ret ") + (do_call(c) ? "1" : "0"));
+    --callout_depth;
+}
+
+// `cmpfresh`: the current run began with reset() + start() on the root; it is compared with the marked run of the freshly built tree
+// (a) when nothing but loop passes and clock steps followed either start (round 10: end state only, the schedules may differ), or
+// (b) when both runs were driven by the same op script from the same timeout configuration with no callback script pending
+//     (round 11: end state AND the instants of the root's finish notifications relative to the start)
+static void do_cmpfresh() {
+    bool a = time_only(run_log) && time_only(mark_log) && run_tmo == mark_tmo;
+    bool b = run_log == mark_log && run_tmo == mark_tmo && !run_scripts && !mark_scripts;
+    if (has_mark && restart_state == 2 && (a || b)) {
+        std::string got = summary(), want = mark_str;
+        if (b) { got += " " + timed_summary(); want += " " + mark_timed; }
+        std::cout << "B cmpfresh compared" << (b ? " same-script" : "") << "\n";
+        if (got != want) violation("the run restarted by reset() + start() differs from the run of the freshly built tree: got " + got + " want " + want);
+    } else std::cout << "B cmpfresh skipped\n";
+}
+static size_t pending_scripts() {
+    size_t n = scr_final.size() + scr_fin.size() + scr_blk.size();
+    for (auto &kv : scr_body) n += kv.second.size();
+    for (auto &kv : scr_ifinal) n += kv.second.size();
+    return n;
 }
 
 int main() {
@@ -402,17 +455,15 @@ int main() {
             if (xexec) std::cout << "P x r=" << pending_rets << " cur=" << xexec->current() << " st=" << xsnapshot() << "\n";
             else if (free_mode) {
                 std::cout << "B r=" << pending_rets << " s=" << snapshot() << "\n"; check_quiescent(); check_last_call(); if (settle_pending) check_settled();
-                if (cmp_pending) {
-                    if (has_mark && restart_state == 2) {
-                        std::string got = summary();
-                        std::cout << "B cmpfresh compared\n";
-                        if (got != mark_str) violation("the run restarted by reset() + start() differs from the run of the freshly built tree: got " + got + " want " + mark_str);
-                    } else std::cout << "B cmpfresh skipped\n";
-                }
+                if (cmp_pending) do_cmpfresh();
                 std::cout << "P free\n"; }
             else {
                 std::cout << "P r=" << pending_rets << " s=" << snapshot() << "\n";
-                if (mark_pending) { has_mark = fresh_state == 1; mark_str = has_mark ? summary() : ""; }
+                if (mark_pending) {
+                    has_mark = fresh_state == 1; mark_str = has_mark ? summary() : ""; mark_timed = timed_summary();
+                    mark_log = run_log; mark_tmo = run_tmo; mark_scripts = run_scripts;
+                }
+                if (cmp_pending) do_cmpfresh();
             }
             pending = false; settle_pending = false; mark_pending = false; cmp_pending = false; last_root_ctl = -1;
         }
@@ -478,7 +529,8 @@ int main() {
             root = t; nodes = ps.made; dummies = ps.dums;
             scr_final.clear(); scr_fin.clear(); scr_blk.clear();
             free_mode = false; scr_body.clear(); scr_ifinal.clear(); root_fins = 0;
-            fn_calls.assign(nodes.size(), 0); root_fin_log.clear(); restart_state = 0; fresh_state = 0; has_mark = false; mark_str.clear();
+            fn_calls.assign(nodes.size(), 0); root_fin_log.clear(); root_fin_at.clear(); root_blk_log.clear(); restart_state = 0; fresh_state = 0; has_mark = false; mark_str.clear();
+            run_log.clear(); mark_log.clear(); cur_tmo = ps.tmos; cur_tmo.resize(nodes.size(), -1);
             kid_ids.clear(); is_func.assign(nodes.size(), false); is_asm.assign(nodes.size(), false);
             {
                 std::map<Action*, int> idx;
@@ -488,20 +540,54 @@ int main() {
             }
             root->setFinishCallback([](bool s, const Action::Reason &why, const Action::Trace &) {
                 ev("fin " + std::to_string(s ? 1 : 0) + " " + std::to_string(why.code));
-                root_fin_log.push_back(std::make_pair(s ? 1 : 0, why.code));
+                root_fin_log.push_back(std::make_pair(s ? 1 : 0, why.code)); root_fin_at.push_back(vt::mono_ms() - run_t0);
                 if (free_mode) {
                     if (root->state() != Action::State::kFinished) violation(std::string("finish notification while the root is ") + stch(root->state()));
                     if (++root_fins > 1) violation("finish notification delivered twice in one run");
                 }
                 run_script(scr_fin); });
             root->setBlockCallback([](const Action::Reason &why, const Action::Trace &) {
-                ev("blk " + std::to_string(why.code));
+                ev("blk " + std::to_string(why.code)); root_blk_log.push_back(why.code);
                 if (free_mode && (root->state() == Action::State::kIdle || root->state() == Action::State::kStoped))
                     violation(std::string("block notification while the root is ") + stch(root->state()));
                 run_script(scr_blk); });
             if (auto as = dynamic_cast<AssembleAction*>(root))
                 as->setFinalCallback([] { ev("final 0"); check_final(0); run_script(scr_final); run_iscript(scr_ifinal, 0); });
             std::cout << "P tree n=" << nodes.size() << " s=" << snapshot() << "\n";
+            return true;
+        }
+        if (w[0] == "share" && w.size() == 2 && !root) {
+            // round 11: ONE leaf object attached to TWO parents of the same kind: the second attach must be refused (setParent), the
+            // second parent must not use or own the leaf (its destructor would delete it a second time: ASan)
+            static const char *kinds[] = { "seq", "par", "ift", "ife", "sw", "loop", "lif", "rep", "wr", "cmp" };
+            int kd = -1; for (int i = 0; i < 10; ++i) if (w[1] == kinds[i]) kd = i;
+            if (kd < 0) { std::cout << "bad-op\n"; return false; }
+            int calls = 0;
+            auto leaf = new FunctionAction(*loop, [&calls] { ++calls; return true; });
+            auto mk = [&](Action *&out, int &ret) {
+                switch (kd) {
+                    case 0: { auto a = new SequenceAction(*loop); ret = a->addChild(leaf); out = a; break; }
+                    case 1: { auto a = new ParallelAction(*loop); ret = a->addChild(leaf); out = a; break; }
+                    case 2: { auto a = new IfThenAction(*loop); ret = a->addChildAs(leaf, "if"); out = a; break; }
+                    case 3: { auto a = new IfElseAction(*loop); ret = a->setChildAs(leaf, "if") ? 1 : 0; out = a; break; }
+                    case 4: { auto a = new SwitchAction(*loop); ret = a->setChildAs(leaf, "switch") ? 1 : 0; out = a; break; }
+                    case 5: { auto a = new LoopAction(*loop); ret = a->setChild(leaf) ? 1 : 0; out = a; break; }
+                    case 6: { auto a = new LoopIfAction(*loop); ret = a->setChildAs(leaf, "if") ? 1 : 0; out = a; break; }
+                    case 7: { auto a = new RepeatAction(*loop, 2); ret = a->setChild(leaf) ? 1 : 0; out = a; break; }
+                    case 8: { auto a = new WrapperAction(*loop); ret = a->setChild(leaf) ? 1 : 0; out = a; break; }
+                    default: { auto a = new CompositeAction(*loop, "Composite"); ret = a->setChild(leaf) ? 1 : 0; out = a; break; }
+                }
+            };
+            Action *p1 = nullptr, *p2 = nullptr; int r1 = 0, r2 = 0;
+            mk(p1, r1); mk(p2, r2);
+            std::cout << "M share ret1=" << r1 << " ret2=" << r2 << "\n";
+            std::string out = "P share " + w[1];
+            if (kd <= 2) {      // the kinds that may run without children: the second parent runs without the leaf
+                p2->start(); out += std::string(" st2=") + stch(p2->state()) + rsch(p2->result()) + " calls2=" + std::to_string(calls);
+                if (kd <= 1) { p1->start(); out += std::string(" st1=") + stch(p1->state()) + " calls1=" + std::to_string(calls); }
+            } else out += std::string(" ready2=") + (p2->isReady() ? "1" : "0");
+            std::cout << out << "\n";
+            delete p2; delete p1;
             return true;
         }
         if (!root) { std::cout << "bad-op\n"; return false; }
@@ -513,7 +599,7 @@ int main() {
                 pending_rets.clear();
                 for (auto &c : cs) pending_rets += do_call(c) ? "1" : "0";
             } else {
-                pending_rets = "-";
+                pending_rets = "-"; run_log.push_back(line);
                 loop->runNext([cs] { for (auto &c : cs) ev(std::string("ret ") + (do_call(c) ? "1" : "0")); }, "verif-defer");
             }
             pending = true;
@@ -524,40 +610,49 @@ int main() {
             std::vector<ICall> cs;
             for (size_t i = 4; i < w.size(); ++i) { Call c; if (!parse_call(w[i], c) || c.kind == 5) { std::cout << "bad-op\n"; return false; } cs.push_back(ICall{c.kind}); }
             (w[1] == "body" ? scr_body : scr_ifinal)[(int)n].push_back(std::make_pair((int)tg, cs));
-            free_mode = true;
+            free_mode = true; run_log.push_back(line);
+            pending_rets = "-"; pending = true;
+        } else if ((w[0] == "settmo" && w.size() == 3) || (w[0] == "clrtmo" && w.size() == 2)) {
+            // Action::setTimeout(ms) / resetTimeout() on any node at any pass (round 11); <spec> as after `@`: <k> or r<ms>
+            uint64_t n; std::string base; int64_t tmo = -1; bool raw = false;
+            if (!vh::to_u64(w[1], n) || n >= nodes.size() || (w[0] == "settmo" && (!Parser::split_tmo("x@" + w[2], base, tmo, raw) || tmo < 0))) {
+                std::cout << "bad-op\n"; return false; }
+            run_log.push_back(line);
+            if (w[0] == "settmo") { cur_tmo[n] = Parser::tmo_ms((int)n, tmo, raw); nodes[n]->setTimeout(std::chrono::milliseconds(cur_tmo[n])); }
+            else { cur_tmo[n] = -1; nodes[n]->resetTimeout(); }
             pending_rets = "-"; pending = true;
         } else if (w[0] == "mark" && w.size() == 1 && !free_mode) {
             // = `pass` followed by 8n+40 times `adv 60` (everything that can end has ended); then the end state of the run is
             // recorded if it is the control-free run of the freshly built tree (one start(), nothing else)
             pending_rets = "-"; pending = true; mark_pending = true; settle_wait = 8 * (int)nodes.size() + 40; settle_adv = true;
-        } else if (w[0] == "cmpfresh" && w.size() == 1 && free_mode) {
-            pending_rets = "-"; pending = true; settle_pending = true; cmp_pending = true; settle_wait = 8 * (int)nodes.size() + 40; settle_adv = true;
+        } else if (w[0] == "cmpfresh" && w.size() == 1) {
+            pending_rets = "-"; pending = true; settle_pending = free_mode; cmp_pending = true; settle_wait = 8 * (int)nodes.size() + 40; settle_adv = true;
         } else if (w[0] == "settle" && w.size() == 1 && free_mode) {
             // every level of the tree needs one pass to hand its notification up: let the queue drain first
-            pending_rets = "-"; pending = true; settle_pending = true; settle_wait = 2 * (int)nodes.size() + 4;
+            pending_rets = "-"; pending = true; settle_pending = true; settle_wait = 2 * (int)nodes.size() + 4; run_log.push_back("passes settle");
         } else if (w[0] == "cb" && w.size() >= 3 && w.size() <= 8 && (w[1] == "final" || w[1] == "fin" || w[1] == "blk")) {
             std::vector<Call> cs;
             for (size_t i = 2; i < w.size(); ++i) { Call c; if (!parse_call(w[i], c) || c.kind == 5) { std::cout << "bad-op\n"; return false; } cs.push_back(c); }
-            (w[1] == "final" ? scr_final : w[1] == "fin" ? scr_fin : scr_blk).push_back(cs);
+            (w[1] == "final" ? scr_final : w[1] == "fin" ? scr_fin : scr_blk).push_back(cs); run_log.push_back(line);
             pending_rets = "-"; pending = true;
         } else if (w[0] == "adv" && w.size() == 2 && vh::to_u64(w[1], k) && k <= 100) {
-            vt::advance_ms((int64_t)(100 * k)); pending_rets = "-"; pending = true;
+            vt::advance_ms((int64_t)(100 * k)); pending_rets = "-"; pending = true; run_log.push_back(line);
         } else if (w[0] == "advr" && w.size() == 2 && to_u64s(w[1], k) && k <= RAW_MAX) {
-            vt::advance_mono_ms((int64_t)k); pending_rets = "-"; pending = true;
+            vt::advance_mono_ms((int64_t)k); pending_rets = "-"; pending = true; run_log.push_back(line);
         } else if (w[0] == "advdo" && w.size() >= 3 && to_u64s(w[1], k) && k <= RAW_MAX) {
             // the clock moves and the control calls are made in the SAME fd callback: timers that are due by now have not
             // fired yet (a late loop pass) - pause() then sees finish_time_ < now
             std::vector<Call> cs;
             for (size_t i = 2; i < w.size(); ++i) { Call c; if (!parse_call(w[i], c)) { std::cout << "bad-op\n"; return false; } cs.push_back(c); }
-            vt::advance_mono_ms((int64_t)k);
+            vt::advance_mono_ms((int64_t)k); run_log.push_back("advdo " + w[1]);
             pending_rets.clear();
             for (auto &c : cs) pending_rets += do_call(c) ? "1" : "0";
             pending = true;
         } else if (w[0] == "passes" && w.size() == 2 && vh::to_u64(w[1], k) && k >= 1 && k <= 200000) {
             // k loop passes (one snapshot at the end): long synchronous loops
-            pending_rets = "-"; pending = true; settle_wait = (int)k - 1;
+            pending_rets = "-"; pending = true; settle_wait = (int)k - 1; run_log.push_back(line);
         } else if (w[0] == "pass" && w.size() == 1) {
-            pending_rets = "-"; pending = true;
+            pending_rets = "-"; pending = true; run_log.push_back("pass");
         } else { std::cout << "bad-op\n"; return false; }
             return true;
         };
